@@ -1,6 +1,6 @@
 import Mathlib.Algebra.Order.Field.Basic
 import CardVerif.Proofs.ListLemmas
-import CardVerif.Spec.SidePot
+import CardModel.Spec.SidePot
 /-!
 # Side pots: the loops of `Pot.settle` against the unit-layer spec (C02)
 
